@@ -211,7 +211,10 @@ class ResolvePortRefs(ElabPass):
             self.fail(f"Invalid PortRef group: {group}")
 
         # Nothing "unconnected". Find the one with the lowest (alphabetical) instance and port name.
-        ordered = sorted(group, key=lambda p: (p.inst.name, p.portname))
+        # Ports of Instance Arrays do not take part: they only ever take the group's Signal, broadcast or
+        # an element's section of it, and their width is that of a single element, not that of the group.
+        candidates = [p for p in group if not isinstance(p.inst, InstanceArray)] or group
+        ordered = sorted(candidates, key=lambda p: (p.inst.name, p.portname))
         return ordered[0]
 
     def create_source(self, module: Module, group: List[PortRef]) -> PortType:
